@@ -90,19 +90,23 @@ func runLoss(c LossCase) ev.Verdict {
 			s.pipe.WriteFailAfter = 0
 			s.pipe.Release() // and the peer is gone
 		} else {
-			stale := 0
+			var msg []byte
 
 			switch c.Op {
 			case "getprompt", "cmd", "cmds", "interactive":
 				if c.Stale {
-					msg := []byte("\r\n%LINK-3-UPDOWN: Interface Gi0/1, changed state to down\r\n" + host + "> ")
-					stale = len(msg)
-					s.pipe.Inject(msg)
+					msg = []byte("\r\n%LINK-3-UPDOWN: Interface Gi0/1, changed state to down\r\n" + host + "> ")
 					v.Classes = append(v.Classes, "idle-stale-bytes")
 				}
 			}
 
-			s.pipe.SetFault(kind, stale)
+			// the fault position is fixed before the bytes exist: the reader runs concurrently and
+			// may deliver some of them at once
+			s.pipe.SetFault(kind, len(msg))
+
+			if msg != nil {
+				s.pipe.Inject(msg)
+			}
 		}
 
 		time.Sleep(30*rd + time.Duration(c.ReadDelayNS)*100)
